@@ -190,6 +190,16 @@ func suiteNode(c *Ctx) {
 	c.Class("scenario/stray-prepare-in-prepared-view")
 	scenariosDescendingIds(c)
 	c.Class("scenario/descending-ids")
+	scenarioHeavyLeader(c)
+	c.Class("scenario/heavy-leader")
+	scenarioHeavyMemberTimesOut(c)
+	c.Class("scenario/heavy-member-times-out")
+	scenarioNewViewSendFailsThenLateVote(c)
+	c.Class("scenario/newview-send-fails-then-late-vote")
+	for k := 0; k < 4; k++ {
+		scenarioTwoLocksHonestLeader(c, k)
+	}
+	c.Class("scenario/two-locks-honest-leader")
 }
 
 // schemeFor: every fifth scenario uses long ids with a common three-byte prefix, every seventh ids
